@@ -554,7 +554,7 @@ def evaluate(groups, tier):
                     kfs.add("C13-1")
                 else:
                     fails.append("%s: %d versions differing in declaration order / layout (%s) although the model's class says this file is order independent" % (f, len(vs), sorted(set(rels))))
-            elif cl["dupdef"] and f == "types.ts" and all(x in ("same-multiset", "different") for x in rels):
+            elif cl["dupdef"] and f == "types.ts" and all(x in ("same-multiset", "different") or order_only(cl, f, zod, x) for x in rels):
                 kfs.add("C13-2")
             else:
                 which = "among the plain runs" if len(versions(g["runs"], f)) > 1 else "between plain runs and runs on sources with added noise"
